@@ -1113,6 +1113,12 @@ impl Sim {
                 }
             }
             StoreOutcome::Injected(s) => Some(self.finding(i, "unexpected-injection", &[], format!("harness: injected error without an armed fail-point: {s}"))),
+            StoreOutcome::Other(_) if expect.engine_refusal => {
+                // the marker key of an own address named by the request is longer than the engine
+                // takes: an ordinary failure, judged below like every failed store
+                self.stats.inc("probe/engine_refused_oversize_marker_key");
+                None
+            }
             StoreOutcome::Other(s) => {
                 let p: &[&'static str] = match self.disturbed {
                     Some("failpoint") => &["C12"],
@@ -1880,6 +1886,16 @@ impl Sim {
         if let Some(e) = resubmit {
             if let Some(x) = self.enc.get(&e.id) {
                 cont.push((e.clone(), x.clone()));
+                if x.as_bytes().len() >= 2000 {
+                    // the interrupted event spans a growth step or more: one more event of that
+                    // size, so that the recovered store also has to grow past whatever room the
+                    // interrupted growth left behind
+                    self.fresh_counter += 1;
+                    let mut big = fresh_event(i as u64, idx as u64, self.fresh_counter);
+                    big.content = e.content.clone();
+                    let big_enc = real::encode(&big);
+                    cont.push((big, big_enc));
+                }
             }
         }
         let mut extra_enc: BTreeMap<B32, Vec<u8>> = BTreeMap::new();
@@ -1914,6 +1930,7 @@ impl Sim {
                 StoreOutcome::Deleted => expect.refusals.contains(&Refusal::Deleted),
                 StoreOutcome::Replaced => expect.refusals.contains(&Refusal::Replaced) || expect.tie,
                 StoreOutcome::InvalidDelete => expect.refusals.contains(&Refusal::InvalidDelete) || expect.malformed,
+                StoreOutcome::Other(_) => expect.engine_refusal,
                 _ => false,
             };
             if !ok {
